@@ -94,6 +94,30 @@ func acceptUnits(c *checkCtx, check string) []*interp.Unit {
 			us = append(us, u)
 		}
 	}
+	// C01-M: one matcher step against the reference step, on wider raw tokens
+	ms := func(m string, g, k, l int) {
+		u := unit(cli, "H_match_step", fmt.Sprintf("H_match_step[%s group %d raw K<=%d L<=%d]", m, g, k, l), map[string]interface{}{"matcher": m, "group": g, "K": k, "L": l})
+		u.Samples = 3
+		us = append(us, u)
+	}
+	if c.quick() {
+		ms("opt", 0, 3, 3)
+		ms("opt", 0, 2, 4)
+		for g := 0; g < 4; g++ {
+			ms("group", g, 2, 3)
+		}
+		ms("group", 3, 2, 4)
+		ms("arg", 0, 2, 2)
+	} else {
+		ms("opt", 0, 3, 4)
+		ms("opt", 0, 2, 5)
+		for g := 0; g < 4; g++ {
+			ms("group", g, 3, 3)
+		}
+		ms("group", 3, 2, 5)
+		ms("group", 2, 2, 5)
+		ms("arg", 0, 3, 3)
+	}
 	if check == "C01" {
 		// structural part: the compiled graph denotes the spec's language over matcher labels,
 		// for label sequences of any length (k-induction), for every token sequence up to k
